@@ -17,11 +17,61 @@ def lossy(frm, to):
     return True
 
 
+CONSTS = {}     # def-path -> body expr of local consts (filled by audit callers through register_consts)
+
+
+def register_consts(fx, files):
+    for file in files:
+        for f in fx.fns(file):
+            if f.get('dk') in ('Const', 'AssocConst', 'Static'):
+                CONSTS[f['path']] = f['body']
+
+
+def const_eval(e, depth=0):
+    """integer value of a constant expression (literals, T::MAX, T::BITS, + - * << >>, casts, named consts); None if unknown"""
+    if depth > 6:
+        return None
+    e = T.peel(e)
+    k = e.get('k')
+    if k == 'Cast':
+        return const_eval(e['x'], depth + 1)
+    v = T.lit_int(e)
+    if v is not None:
+        return v
+    if k == 'Path':
+        d = e.get('d', '')
+        for t in INTS:
+            if ('<impl %s>' % t) in d or d.endswith('%s::MAX' % t) or d.endswith('%s::BITS' % t) or d.endswith('%s::MIN' % t):
+                if d.endswith('::MAX'):
+                    return limit_value(t)
+                if d.endswith('::BITS'):
+                    return WIDTH[t]
+                if d.endswith('::MIN'):
+                    return -(1 << (WIDTH[t] - 1)) if t[0] == 'i' else 0
+        if d in CONSTS:
+            return const_eval(CONSTS[d], depth + 1)
+        return None
+    if k == 'Binary':
+        a, b = const_eval(e['x'], depth + 1), const_eval(e['y'], depth + 1)
+        if a is None or b is None:
+            return None
+        try:
+            return {'+': a + b, '-': a - b, '*': a * b, '<<': a << b, '>>': a >> b, '/': a // b if b else None, '|': a | b, '&': a & b}.get(e['op'])
+        except Exception:
+            return None
+    if k == 'Block' and 'e' in e and not e.get('s'):
+        return const_eval(e['e'], depth + 1)
+    return None
+
+
 def max_of(e):
-    """'u8' for the expression u8::MAX (possibly `as usize`), or an int literal value"""
+    """'u8' for the expression u8::MAX (possibly `as usize`), or an int literal / constant value"""
     e = T.peel(e)
     if e.get('k') == 'Cast':
         return max_of(e['x'])
+    cv = const_eval(e)
+    if cv is not None and not (e.get('k') == 'Path' and e.get('d', '').endswith('::MAX')):
+        return cv
     if e.get('k') == 'Path' and e.get('d', '').endswith('::MAX'):
         for t in INTS:
             if ('<impl %s>' % t) in e['d'] or ('::%s::MAX' % t) in e['d'] or e['d'].endswith(t + '::MAX'):
